@@ -90,6 +90,25 @@ fn run_completeness(cx: &mut CaseCx, case: &Value) {
           }
           Err(e) => cx.viol("C13/complete/json-roundtrip", format!("honest evaluation does not restore from its JSON form: {}", e), d()),
         }
+        // the whole evaluation through a NON-self-describing format (bincode, as used for keys and proofs) and
+        // through JSON handed over as a parsed value
+        match guard(|| bincode::serialize(&ev).map_err(|e| e.to_string()).and_then(|b| bincode::deserialize::<pp::Evaluation>(&b).map_err(|e| e.to_string()))) {
+          Ok(Ok(ev4)) => {
+            if guard(|| pp::Client::verify(&w.pk, &blinded, &ev4, md)) != Ok(true) {
+              cx.viol("C13/complete/bincode-roundtrip", "an honest evaluation restored from bincode does not verify", d());
+            }
+            cx.count("evaluation_bincode_roundtrips", 1);
+          }
+          other => cx.viol("C13/complete/bincode-roundtrip", format!("an honest evaluation does not survive serialisation with bincode (the format the library uses for keys and proofs): {:?}", other.map(|r| r.map(|_| ()))), d()),
+        }
+        match guard(|| serde_json::to_value(&ev).map_err(|e| e.to_string()).and_then(|v| serde_json::from_value::<pp::Evaluation>(v).map_err(|e| e.to_string()))) {
+          Ok(Ok(ev5)) => {
+            if guard(|| pp::Client::verify(&w.pk, &blinded, &ev5, md)) != Ok(true) {
+              cx.viol("C13/complete/json-roundtrip", "an honest evaluation restored from a JSON value does not verify", d());
+            }
+          }
+          other => cx.viol("C13/complete/json-roundtrip", format!("an honest evaluation does not restore from its JSON value: {:?}", other.map(|r| r.map(|_| ()))), d()),
+        }
         let pb = ev.proof.as_ref().unwrap().serialize_to_bincode().unwrap_or_default();
         match ev_of(ev.output.as_bytes(), &pb) {
           Some(ev3) => {
